@@ -1,4 +1,5 @@
 import Pun.Model.B2B
+import Pun.Model.Dss
 /-!
 # C14 model: `propagation/mixed_up.py` — `slicing` and `interval_monte_carlo`
 
@@ -62,6 +63,23 @@ def slicing (φ : UFun → Rat → Rat) (e : Expr) (pv : List Rat) (vars : List 
 def imc (φ : UFun → Rat → Rat) (e : Expr) (pv : List Rat) (vars : List PB) (levels : List (List Rat))
     (s : Strategy) (style : Option Style) (n : Option Nat) : Except Err (List Val) :=
   propagate φ e pv vars levels s style n
+
+/-- `stacking(container)` of `pba/aggregation.py` with `weights=None`: the C08 model `Pun.Dss.stacking` on the
+grid `g = Params.p_values`, fed with the lower and the upper ends of the focal images (equal masses `1/N`) -/
+def stackOut (g : List Rat) (out : List Val) : Except Err Dss.PB :=
+  Dss.stacking g (out.map Val.lo) (out.map Val.hi) none
+
+/-- `slicing(...)` as returned to the caller: the p-box stacked from the focal images -/
+def slicingPbox (φ : UFun → Rat → Rat) (e : Expr) (pv : List Rat) (vars : List PB) (grid : List Rat)
+    (s : Strategy) (style : Option Style) (n : Option Nat) : Except Err Dss.PB := do
+  let out ← slicing φ e pv vars grid s style n
+  stackOut pv out
+
+/-- `interval_monte_carlo(...)` as returned to the caller -/
+def imcPbox (φ : UFun → Rat → Rat) (e : Expr) (pv : List Rat) (vars : List PB) (levels : List (List Rat))
+    (s : Strategy) (style : Option Style) (n : Option Nat) : Except Err Dss.PB := do
+  let out ← imc φ e pv vars levels s style n
+  stackOut pv out
 
 /-- driver glue: the `φ` values read -/
 def queriesMix (φ : UFun → Rat → Rat) (e : Expr) (pv : List Rat) (vars : List PB) (levels : List (List Rat))
